@@ -21,7 +21,10 @@
     `ultimate_termination` swallow the cancellation and end `done`; a watcher goes through its
     `finally:` (`stopping`: depletion of the workers for at most `exit_timeout`, then
     `scheduler.close()`); a keep-alive withdraws the peering record in its `finally:`; the
-    orchestrator cancels and awaits its ensemble; `daemon_killer` spawns the exit stoppers and awaits them
+    orchestrator stops its ensemble IN ORDER (`stop_in_order`, since /repo 26a293c): first it cancels and awaits the
+    STREAMS (resource watchers, peering observers: `rootStopping orchestrator`), and only when the last of them has
+    ended it cancels and awaits the KEEP-ALIVES (`orchStopPingers`, flag `orchPing`) — the handling stops first,
+    the peering record is withdrawn last; `daemon_killer` spawns the exit stoppers and awaits them
     (`stopping`, at most `D`) — or crashes there (`stopping true`: "dictionary changed size during
     iteration", finding C20-F4) and ends `failed`.
   * Escalation edges AS THE CODE HAS THEM:
@@ -252,6 +255,8 @@ structure State where
   killerCut : Bool                -- ghost: `daemon_killer`'s `finally:` was interrupted by a SECOND cancellation (it did not
                                   -- wait for its exit stoppers)
   orchErr : Bool                  -- (fixed variant) the orchestrator was cancelled by a failed ensemble task
+  orchPing : Bool                 -- the exiting orchestrator has begun its SECOND stop: the streams are over, the keep-alives
+                                  -- are cancelled (`stop_in_order`, since /repo 26a293c)
   t0 : Option Nat                 -- when `run_tasks` began to stop the root tasks
   abandoned : Bool                -- (HISTORICAL variants only) the run has LEFT THE MODEL: the orchestrator was cancelled a SECOND
                                   -- time while stopping its ensemble (`orchAbandon`, C20-F8), `operator()` was cancelled inside
@@ -282,7 +287,7 @@ def init : State :=
     coop := fun _ => false, stopReq := fun _ => false, withdrawnOk := fun _ => false, abandoned := false, tFail := none, failWho := none, orchStopAt := none,
     core := .waitingFlag, coreCreq := false, started := false, ready := false,
     sc := .init, rt := .waiting, stopFlagSet := false, waiter := true, orphans := 0, killed := false, killerCut := false,
-    orchErr := false, t0 := none, exitAt := none, result := none,
+    orchErr := false, orchPing := false, t0 := none, exitAt := none, result := none,
     acts := 0, startupDone := false, startupFailed := false, startupRaised := false, cleanupBegun := false,
     rootFailed := false, hungFailed := false }
 
@@ -314,6 +319,7 @@ inductive Label where
   | subCancel (i : Nat)
   | withdraw (i : Nat) (ok : Bool)
   | subEnd (i : Nat) (how : TS)
+  | orchStopPingers
   -- workers, daemons, helper
   | workerStart (o : Task)
   | workerEnd (w : Nat) (how : WS)
@@ -343,6 +349,9 @@ def anyRootEnded (s : State) : Bool := Root.all.any (fun r => (s.st (.root r)).e
 def othersEnded (s : State) : Bool :=
   Root.all.all (fun r => r == .startupCleanup || (s.st (.root r)).ended)
 def noLiveSub (s : State) : Bool := (List.range s.nSubs).all (fun i => !(s.st (.sub i)).live)
+/-- no STREAM of the ensemble (resource watcher, peering observer — everything but the keep-alives) is alive -/
+def noLiveStream (s : State) : Bool :=
+  (List.range s.nSubs).all (fun i => s.kind i == .pinger || !(s.st (.sub i)).live)
 
 def workerOf (s : State) (o : Task) (w : Nat) : Bool :=
   match s.wk w with
@@ -387,10 +396,19 @@ def cancelRootsV (cfg : Cfg) (s : State) : Task → Bool
       || (decide (r = .daemonKiller) && (s.st (.root .daemonKiller)).isStopping)
   | t => s.creq t
 
-/-- the orchestrator's `stop(ensemble tasks)` -/
+/-- the orchestrator's FIRST exit stop, `stop(others, title="streaming")`: every ensemble task but the keep-alives
+    (`others = get_tasks(keys) - pingers`, since /repo 26a293c) -/
 def cancelSubs (s : State) : Task → Bool
   | .sub i => s.creq (.sub i)
-              || (decide (i < s.nSubs) && (decide (s.st (.sub i) = .running) || decide (s.st (.sub i) = .waitingFlag)))
+              || (decide (i < s.nSubs) && decide (s.kind i ≠ .pinger)
+                  && (decide (s.st (.sub i) = .running) || decide (s.st (.sub i) = .waitingFlag)))
+  | t => s.creq t
+
+/-- the orchestrator's SECOND exit stop, `stop(pingers, title="pinging")`: the keep-alives -/
+def cancelPingers (s : State) : Task → Bool
+  | .sub i => s.creq (.sub i)
+              || (decide (i < s.nSubs) && decide (s.kind i = .pinger)
+                  && (decide (s.st (.sub i) = .running) || decide (s.st (.sub i) = .waitingFlag)))
   | t => s.creq t
 
 def dlReached (now : Nat) : TS → Bool
@@ -430,7 +448,7 @@ def urgent (cfg : Cfg) (s : State) : Bool :=
   || (s.started && (s.core == .waitingFlag || Root.all.any (fun r => s.st (.root r) == .waitingFlag)))
   || (s.stopFlagSet && s.st (.root .stopFlag) == .running)
   || (cfg.coreWatched && s.core == .failed && s.st (.root .coreWatcher) == .running)
-  || (match s.st (.root .orchestrator) with | .stopping _ _ => noLiveSub s | _ => false)
+  || (match s.st (.root .orchestrator) with | .stopping _ _ => noLiveSub s || (!s.orchPing && noLiveStream s) | _ => false)
 
 def deadlinesAllow (cfg : Cfg) (s : State) (n : Nat) : Bool :=
   Root.all.all (fun r => dlAllows s.now n (s.st (.root r)))
@@ -594,7 +612,8 @@ def step (cfg : Cfg) (s : State) : Label → Option State
                         creq := upd s.creq (.root r) false, killed := true, stopReq := stopReqNow s }
         else none
       | .orchestrator =>
-        -- `except CancelledError: await stop(ensemble tasks); raise`
+        -- `except CancelledError: await stop_in_order(); raise` — its first half: `stop(others, title="streaming")` cancels the
+        -- watchers and the peering observers; the keep-alives go on (see `orchStopPingers`)
         if s.creq (.root r) = true ∧ fail = s.orchErr then
           some { s with st := upd s.st (.root r) (.stopping fail none),
                         creq := upd (cancelSubs s) (.root r) false, orchStopAt := some s.now }
@@ -665,7 +684,8 @@ def step (cfg : Cfg) (s : State) : Label → Option State
       | .orchestrator =>
         match s.st (.root r) with
         | .waitingFlag => if how = .cancelled ∧ s.creq (.root r) = true then some fin else none
-        | .stopping f _ => if how = failTS f ∧ noLiveSub s = true then some fin else none
+        -- (both stops of `stop_in_order` are over: the second one has begun — `orchPing` — and no ensemble task is alive)
+        | .stopping f _ => if how = failTS f ∧ noLiveSub s = true ∧ s.orchPing = true then some fin else none
         | _ => none
     else none
   -- ---------------------------------------------------------------- ensemble tasks
@@ -733,6 +753,15 @@ def step (cfg : Cfg) (s : State) : Label → Option State
               else some s1
             | _ => some s1
         else none
+      | _ => none
+    else none
+  | .orchStopPingers =>
+    -- the second half of `stop_in_order` (since /repo 26a293c): `stop(others)` has returned — every watcher and peering
+    -- observer of the ensemble has ended (its workers depleted or cancelled, hence every handler in flight over) —, now
+    -- `stop(pingers, title="pinging")` cancels the keep-alives: their `finally:` withdraws the peering record (`withdraw`)
+    if s.rt ≠ .exited ∧ s.orchPing = false ∧ noLiveStream s = true then
+      match s.st (.root .orchestrator) with
+      | .stopping _ _ => some { s with creq := cancelPingers s, orchPing := true }
       | _ => none
     else none
   -- ---------------------------------------------------------------- workers, daemons, helper
@@ -931,6 +960,13 @@ def headSweepsStop : Bool := true
     (repair of finding C20-F5) -/
 def headEscalatesDepletion : Bool := true
 
+/-- the orchestrator's `except CancelledError:` stops its ensemble IN ORDER: inside the shielded task first
+    `aiotasks.stop(<every task but the pinging ones>)`, then `aiotasks.stop(<the pinging tasks>)` — the two segments
+    `rootStopping orchestrator` (`cancelSubs`: no keep-alive) and `orchStopPingers` (enabled only when `noLiveStream`).
+    TRUE of the current tree since /repo 26a293c (repair of the findings C13-F7 / C13-F9: the record was withdrawn while the
+    last handlers still ran); a reordering, or a return to one stop of everything, makes the tie theorem fail -/
+def headStopsPingersLast : Bool := true
+
 /-- the configuration of the model of the current tree -/
 def headCfg (e w d c h : Nat) : Cfg :=
   { fixed := headEscalates, coreWatched := headWatchesCore, orchShielded := headShieldsStop,
@@ -1000,7 +1036,7 @@ def internal (s : State) : Label → Bool
   | .rootStopping r fail => !fail || s.werr (.root r) || (r == .orchestrator && s.orchErr)
   | .rootEnd r how => how != .failed || s.st (.root r) != .running || r == .startupCleanup || r == .coreWatcher
   | .subStopping i fail => !fail || s.werr (.sub i)
-  | .withdraw _ _ | .subEnd _ _ => true
+  | .withdraw _ _ | .subEnd _ _ | .orchStopPingers => true
   | .workerEnd _ how => how != .failed
   | .daemonExit _ | .waiterEnd | .orphanEnd => true
   | .rtStopRoots | .rtHungWait | .rtStopHung | .rtCStopHung | .rtExit _ => true
